@@ -235,7 +235,9 @@ def main():
         return replay_file(pid, P, a.replay)
     registry = C.load_all()
     models = P.get("models")
-    timeout_ms = 20000 if tier == "quick" else 60000
+    # nominal solver budget per query (resource units, see solve.py); a property whose heaviest obligation sits near the default
+    # quick budget declares a larger one so that the verdict is not at the edge of the limit
+    timeout_ms = P.get("quick_timeout_ms", 20000) if tier == "quick" else 60000
     out_dir = os.path.join(VERIF, "out", "replays")
     os.makedirs(out_dir, exist_ok=True)
     index = RepoIndex()
